@@ -196,6 +196,12 @@ func VerifC06Items() {
 			o[key] = c06Value("v", verifrt.Param("depth", 1))
 		}
 	}
+	built := c06BuildAndExercise(o, args)
+	verifrt.Observe("built", built)
+	verifrt.Reach("end")
+}
+
+func c06BuildAndExercise(o object.Object, args c06Args) int {
 	built := 0
 	if p, err := NewPostFromObject(o, nil); err == nil {
 		verifrt.Assert(p != nil, "post-nil-without-error")
@@ -233,6 +239,21 @@ func VerifC06Items() {
 	}
 	// the generic entry point
 	c06Exercise(NewTangible(map[string]any(o), nil), args)
+	return built
+}
+
+// VerifC06Types: the "type" of each base object is an arbitrary string of
+// letters - whatever kinds the constructors accept, every method must cope.
+func VerifC06Types() {
+	kind := verifrt.Choice("base", 5)
+	o := c06Base(kind)
+	n := 4 + verifrt.Choice("typelen", verifrt.Param("typelens", 6))
+	t := verifrt.Bytes("type", n)
+	for i := 0; i < n; i++ {
+		verifrt.Assume(verifrt.Any(verifrt.All(t[i] >= 'a', t[i] <= 'z'), verifrt.All(t[i] >= 'A', t[i] <= 'Z')))
+	}
+	o["type"] = t
+	built := c06BuildAndExercise(o, c06Args{w: 9, k: 1, parents: 1, harvest: 1})
 	verifrt.Observe("built", built)
 	verifrt.Reach("end")
 }
